@@ -56,6 +56,9 @@ def run(ctx, R):
                 if ok and var == 'IPv4' and name in ('address_bytes', 'tlv_bytes', 'length'):
                     R.sample({'rule': rule, 'entry': p, 'variant': var, 'expected': T.short(exp), 'found': T.short(found), 'assume': 'INV2'})
     R.floor('accessor summaries x variants', n_acc, 28)
+    # owned copies expose the same views: to_owned copies every field, the header bytes unchanged (rule shared with C16.O)
+    from rules import C16 as C16mod
+    C16mod.owned_copies(ctx, R, rule='C14.O', only=['v2::model::Header'])
     # partition: address_bytes ++ tlv_bytes = header[16..] follows from the shared split term (checked above per variant)
     # C14.F size table
     for (self_ty, name, trait, fn_exp) in [
